@@ -537,7 +537,7 @@ func getInt(r *R, size int) (uint64, error) {
 	return binary.LittleEndian.Uint64(buf[:]), nil
 }
 
-const maxRows = 1 << 31
+const maxRows = 1<<31 - 1
 
 // DecodeData reads `rows` values of type t.
 func DecodeData(r *R, t *Type, rows int) ([]any, error) {
